@@ -79,13 +79,18 @@ enum G {
 #[derive(Clone)]
 struct Sys {
     g: G,
-    coll: std::sync::Arc<dyn Collector>,
+    /// what collect is called on when it is not the handle itself (the vector, or a second handle to the gauge)
+    coll: Option<std::sync::Arc<dyn Collector>>,
 }
 
 impl Sys {
     fn exec(&self, op: GOp) -> Option<u64> {
         if op == GOp::Collect {
-            let fams = self.coll.collect();
+            let fams = match (&self.coll, &self.g) {
+                (Some(c), _) => c.collect(),
+                (None, G::F(g)) => g.collect(),
+                (None, G::I(g)) => g.collect(),
+            };
             let m = &fams[0].get_metric()[0];
             return Some(fbits(m.get_gauge().value()));
         }
@@ -119,7 +124,7 @@ impl Property for C11 {
         "C11"
     }
     fn rule(&self) -> &'static str {
-        "case = one shared Gauge or IntGauge (standalone or a GaugeVec/IntGaugeVec child), 2-3 threads x 1-5 operations from \
+        "case = one shared Gauge or IntGauge (standalone - one handle shared by reference, or two handles - or a GaugeVec/IntGaugeVec child), 2-3 threads x 1-5 operations from \
          set/inc/dec/add/sub/get/Collector::collect with small integer or dyadic arguments (25% of programs: also negative, 2^40, \
          1e300, f64::MAX, +Inf, i64 extremes - IEEE resp. wrapping arithmetic in the model; 7% of programs: the gauge starts at \
          -0.0 and arguments are +-0.0 / 1 / 0.5), and a schedule (random walk, PCT with 1-3 priority change points, or a window that pauses one thread before its \
@@ -149,22 +154,33 @@ impl Property for C11 {
     fn run(&self, src: &mut Src, rep: &mut Report) -> Verdict {
         let float = src.chance(160);
         let via_vec = src.chance(64);
+        // half of the standalone programs use ONE handle, shared by reference between the threads (no clone of it exists
+        // anywhere); the others collect through a second handle
+        let single_handle = !via_vec && src.chance(128);
         let sys = match (float, via_vec) {
             (true, false) => {
                 let g = Gauge::new("g", "h").unwrap();
-                Sys { g: G::F(g.clone()), coll: std::sync::Arc::new(g) }
+                if single_handle {
+                    Sys { g: G::F(g), coll: None }
+                } else {
+                    Sys { g: G::F(g.clone()), coll: Some(std::sync::Arc::new(g)) }
+                }
             }
             (false, false) => {
                 let g = IntGauge::new("g", "h").unwrap();
-                Sys { g: G::I(g.clone()), coll: std::sync::Arc::new(g) }
+                if single_handle {
+                    Sys { g: G::I(g), coll: None }
+                } else {
+                    Sys { g: G::I(g.clone()), coll: Some(std::sync::Arc::new(g)) }
+                }
             }
             (true, true) => {
                 let v = GaugeVec::new(Opts::new("g", "h"), &["l"]).unwrap();
-                Sys { g: G::F(v.with_label_values(&["x"])), coll: std::sync::Arc::new(v) }
+                Sys { g: G::F(v.with_label_values(&["x"])), coll: Some(std::sync::Arc::new(v)) }
             }
             (false, true) => {
                 let v = IntGaugeVec::new(Opts::new("g", "h"), &["l"]).unwrap();
-                Sys { g: G::I(v.with_label_values(&["x"])), coll: std::sync::Arc::new(v) }
+                Sys { g: G::I(v.with_label_values(&["x"])), coll: Some(std::sync::Arc::new(v)) }
             }
         };
         // 25% of programs draw arguments from a wide pool (negative, large, extreme): the signed-sum shortcut is skipped
@@ -213,7 +229,7 @@ impl Property for C11 {
             .map(|ops| {
                 ops.iter()
                     .map(|op| {
-                        let g = sys.clone();
+                        let g = &sys;
                         let op = *op;
                         Box::new(move || g.exec(op)) as OpFn<Option<u64>>
                     })
@@ -276,6 +292,9 @@ impl Property for C11 {
         rep.class(if float { "float-gauge" } else { "int-gauge" });
         if via_vec {
             rep.class("vector-child");
+        }
+        if single_handle {
+            rep.class("single-handle-shared-by-reference");
         }
         if wide {
             rep.class("wide-argument-pool(negative/large/extreme)");
